@@ -128,6 +128,12 @@ class GenericContextRegistry(
         """
         del self._units.maps[:-1]
         units_overlay = any(ctx.redefinitions for ctx in self._active_ctx.contexts)
+        if (units_overlay or self._cache is not self._caches[()]) and hasattr(
+            self, "_base_units_cache"
+        ):
+            # Base units memoised by the system facet depend on the unit
+            # definitions in force, which are about to change.
+            self._base_units_cache = {}
         if not units_overlay:
             # Use the default _cache and _units
             self._cache = self._caches[()]
